@@ -56,6 +56,7 @@ class Unit:
         self.casts = {}
         self.lemmas = []
         self.lost_hints = {}
+        self.lost_fns = set()  # functions whose body is in the unit but lost an optional proof hint: their failures are undecided
         self.canaries = []
         self.canary = False
 
@@ -501,6 +502,7 @@ def _splice(u, text, spec, file, line0, name, where):
                 # optional anchor: the hint is skipped and the properties it serves become undecided (never an alarm)
                 for pp in opt_props:
                     u.lost_hints.setdefault(pp, []).append("%s: anchor \"%s\" in %s" % (where, needle, name))
+                    u.lost_fns.add(name)
                 continue
             raise ExtractError("%s: anchor \"%s\" (#%d) not found in %s" % (where, needle, nth, name))
         ls = hits[nth - 1]
